@@ -93,6 +93,10 @@ fn outline_tasks() -> Vec<(&'static str, &'static str, bool)> {
         ("the body mentions a predicate defined only later", "definition: forall X (d(X) <-> e(X)). definition: forall X (e(X) <-> q(X)).", true),
         ("the body mentions a task predicate's name at another arity, defined only later", "definition: forall X (d(X) <-> not q(X, X)). definition: forall X Y (q(X, Y) <-> d(X)). lemma: #false.", true),
         ("the body mentions a private predicate's name at another arity", "definition: forall X (d(X) <-> t(X, X)).", true),
+        ("the body mentions the defined predicate itself and a quantified variable is not in the body", "definition: forall X (d(X) <-> not d(a)). lemma: #false.", true),
+        ("the body mentions a predicate defined only later and a quantified variable is not in the body", "definition: forall X (d(X) <-> not e(a)). definition: forall X (e(X) <-> d(X)). lemma: #false.", true),
+        ("binary, the body mentions the defined predicate and leaves out a quantified variable", "definition: forall X Y (d(X, Y) <-> not d(X, X)). lemma: #false.", true),
+        ("control: a quantified variable is not in the body (a warning only)", "definition: forall X Y (d(X, Y) <-> q(X)). lemma: forall X Y (d(X, Y) -> q(X)).", false),
         ("repeated variable in the defined atom", "definition: forall X (d(X, X) <-> q(X)).", true),
         ("a term that is not a variable in the defined atom", "definition: forall X (d(X, 1) <-> q(X)).", true),
         ("free variable in the body", "definition: forall X (d(X) <-> q(Y)).", true),
@@ -201,6 +205,7 @@ pub fn check(runs: &mut usize, fails: &mut Vec<Failure>) {
         let want = tight(&p);
         if rc != 0 || out.trim() != want.to_string() {
             fails.push(Failure { property: "C11", input: format!("anthem analyze --property tightness: `{text}`"), detail: format!("prints `{}` (exit {rc}{}) but the positive dependency graph is {}", out.trim(), if err.is_empty() { String::new() } else { format!(", {}", err.lines().next().unwrap_or("")) }, if want { "acyclic" } else { "cyclic" }) });
+            fails.push(Failure { property: "C04", input: format!("anthem analyze --property tightness: `{text}`"), detail: format!("prints `{}` (exit {rc}{}) but the positive dependency graph is {}", out.trim(), if err.is_empty() { String::new() } else { format!(", {}", err.lines().next().unwrap_or("")) }, if want { "acyclic" } else { "cyclic" }) });
         }
     }
     for (why, files, flags, refused) in tasks() {
